@@ -30,9 +30,8 @@ def typed_ok(flags, lines):
     return None
 
 
-def check(rep, text, cfg, layout, trigger=None):
-    d = pytrs.PLSSDesc(text, config=cfg, layout=layout, parse_qq=True)
-    tag = None
+def state_ok(d):
+    """typing, sharing and flawed-ness of a description and its tracts, as they stand now"""
     why = typed_ok(d.w_flags, d.w_flag_lines) or typed_ok(d.e_flags, d.e_flag_lines)
     if not why:
         for t in d.tracts:
@@ -51,6 +50,38 @@ def check(rep, text, cfg, layout, trigger=None):
         why = 'desc_is_flawed does not agree with the error flags'
     if not why and any(t.trs_is_error() for t in d.tracts) and not d.e_flags:
         why = 'a tract has an undecipherable Twp/Rge/Sec but there is no error flag'
+    return why
+
+
+REPARSE_KW = [{}, {'qq_depth': 1}, {'break_halves': True}, {'clean_qq': True}, {'qq_depth_min': 1, 'qq_depth_max': 3},
+              {'suppress_lot_divs': True}]
+
+
+def check(rep, text, cfg, layout, trigger=None, rng=None):
+    d = pytrs.PLSSDesc(text, config=cfg, layout=layout, parse_qq=True)
+    tag = None
+    why = state_ok(d)
+    if not why and rng is not None:
+        # the same must hold after the tracts are parsed again (all of them, or one), with or without new settings
+        step = rng.below(4)
+        if step == 0:
+            kw = rng.choice(REPARSE_KW)
+            d.parse_tracts(**kw)
+            why = state_ok(d)
+            if why:
+                why = f'after parse_tracts({kw}): ' + why
+        elif step == 1 and d.tracts:
+            kw = rng.choice(REPARSE_KW)
+            d.tracts[rng.below(len(d.tracts))].parse(**kw)
+            why = state_ok(d)
+            if why:
+                why = f'after tract.parse({kw}): ' + why
+        elif step == 2:
+            d.parse_tracts()
+            d.parse_tracts(**rng.choice(REPARSE_KW))
+            why = state_ok(d)
+            if why:
+                why = 'after parse_tracts() twice: ' + why
     if not why and trigger:
         phrase, flag = trigger
         hits = [l for l in d.w_flag_lines if l[0] == flag]
@@ -75,7 +106,7 @@ def run(ctx):
         cfg = descs.valid_config(r)
         layout = r.choice([None, None, None, None] + gen.LAYOUTS + ['copy_all'])
         try:
-            has = check(rep, text, cfg, layout)
+            has = check(rep, text, cfg, layout, rng=r)
         except Exception as e:  # noqa
             rep.violation('failing-input', {'text': text, 'config': cfg, 'why': f'raised {type(e).__name__}'})
             has = False
